@@ -1,11 +1,10 @@
-SPECIFICATION FairSpec
+SPECIFICATION Spec
 CONSTANTS
   Ex <- mc_Ex
-  NConn = 2
+  NConn = 3
   MaxRetry = 1
   BugEarlyIdle = FALSE
   BugLateDialLeak = FALSE
-  BugStrayDial = FALSE
+  BugStrayDial = TRUE
 INVARIANTS Inv_C06_OwnReply Inv_C06_CleanIdleStrict Inv_C06_IdleNotServing Inv_C18_NoLeak Inv_C06_NoStray
-PROPERTIES C18_FailFast
 CHECK_DEADLOCK FALSE
